@@ -2622,11 +2622,13 @@ class Group(System):
                     if sub._is_local and sub._has_guess:
                         sub._guess_nonlinear()
 
-                if self._discrete_inputs or self._discrete_outputs:
-                    self.guess_nonlinear(self._inputs, self._outputs, self._residuals,
-                                         self._discrete_inputs, self._discrete_outputs)
-                else:
-                    self.guess_nonlinear(self._inputs, self._outputs, self._residuals)
+                # the user's guess_nonlinear reads and writes physical (unscaled) values
+                with self._unscaled_context(outputs=[self._outputs], residuals=[self._residuals]):
+                    if self._discrete_inputs or self._discrete_outputs:
+                        self.guess_nonlinear(self._inputs, self._outputs, self._residuals,
+                                             self._discrete_inputs, self._discrete_outputs)
+                    else:
+                        self.guess_nonlinear(self._inputs, self._outputs, self._residuals)
             finally:
 
                 if complex_step:
